@@ -2,6 +2,8 @@ import LeptosModel.Model.Reactive
 import LeptosModel.Model.ReactiveOld
 import LeptosModel.Proofs.ReactiveConv
 import LeptosModel.Proofs.ReactiveLog
+import LeptosModel.Proofs.ReactiveWake
+import LeptosModel.Proofs.ReactiveSubs
 /-!
 # C02 — effects converge to the current state under every task schedule
 -/
@@ -296,5 +298,62 @@ example :
     ((run c02Prog [.idle, .pause 3, .set 0 2, .idle]).get 3).runs = 1 ∧
     ((run c02Prog [.idle, .pause 3, .set 0 2, .idle, .resume 3, .set 0 5, .idle]).get 3).runs = 2 := by
   decide +kernel
+
+/-! ## wake order
+
+`subs` of a node is its subscriber list in subscription order: `track` appends the observer at the end
+(or does nothing if it is already subscribed), `clearSources` removes it without permuting the others,
+and nothing else touches the lists (`C02_subs_order_kept`, for EVERY state and operation).
+A write walks `subs` of the signal in that order; an effect that is not (transitively, through a memo)
+downstream of ANOTHER subscriber of the signal is woken exactly at its own position. -/
+
+/-- **subscriber lists keep their order** (all states, all ops, no hypothesis): after any operation every
+subscriber list consists of some of the old subscribers in their old relative order, followed by the
+newly subscribed ones.  Primitive forms: `track_subsKept`, `clearSources_subsKept`
+(`Proofs/ReactiveSubs.lean`). -/
+theorem C02_subs_order_kept :
+    ∀ (p : Prog) (s : State) (o : Op) (y : Nat),
+      ∃ a b, ((step p s o).1.get y).subs = a ++ b ∧ List.Sublist a (s.get y).subs :=
+  fun p s o y => step_subsKept p s o y
+
+/-- **wake order, any state satisfying the data invariant**: the `woke` events logged by a write to `x`,
+restricted to effects that are not downstream of another subscriber of `x` (`directOnly`,
+`Proofs/ReactiveWake.lean`), form a sublist of `subs` of `x`, i.e. they appear in subscription order. -/
+theorem C02_wake_order_inv :
+    ∀ (p : Prog) (s : State) (f x : Nat) (v : Int), InvR p s →
+      ∃ suf, (setSignal f s x v).log = s.log ++ suf ∧
+        List.Sublist ((wokeIds suf).filter (directOnly s x)) (s.get x).subs :=
+  fun _ s f x v h => setSignal_wake h f x v (directOnly s x) (fun w hd => directOnly_spec h x w hd)
+
+/-- **wake order** along every history of every WF program: `step (.set i v)` wakes the direct-only
+effect subscribers of signal `i` in the order in which they subscribed -/
+theorem C02_wake_order :
+    ∀ (p : Prog) (ops : List Op) (i : Nat) (v : Int), WF p = true →
+      ∃ suf, (step p (run p ops) (.set i v)).1.log = (run p ops).log ++ suf ∧
+        List.Sublist ((wokeIds suf).filter (directOnly (run p ops) i)) ((run p ops).get i).subs := by
+  intro p ops i v hwf
+  have hq := run_quietU hwf ops
+  simp only [step]
+  split
+  · exact C02_wake_order_inv p _ _ i v hq.inv
+  · exact ⟨[], by simp, by simp [wokeIds]⟩
+
+/-- non-vacuity: three effects created in the order 1,2,3 subscribe to the signal in the order 3,1,2
+(the executor polls them in that order); a write wakes them in subscription order, not creation order -/
+example :
+    let p : Prog := [.sig 0, .eff (.rd true 0), .eff (.rd true 0), .eff (.rd true 0)]
+    let ops : List Op := [.poll 2, .poll 0, .poll 0]
+    WF p = true ∧ ((run p ops).get 0).subs = [3, 1, 2] ∧
+    wokeIds ((step p (run p ops) (.set 0 7)).1.log.drop (run p ops).log.length) = [3, 1, 2] ∧
+    (List.range 4).filter (directOnly (run p ops) 0) = [0, 1, 2, 3] := by decide +kernel
+
+/-- … and the restriction to direct-only effects is necessary: `e2` (node 4) is also downstream of memo 1,
+so it is woken when the memo is marked, BEFORE `e1` (node 3) although it subscribed to the signal later -/
+example :
+    let p : Prog := [.sig 0, .memo (.rd true 0), .sig 0, .eff (.rd true 0), .eff (.add (.rd true 1) (.rd true 0))]
+    let ops : List Op := [.read 1, .poll 0, .poll 0]
+    WF p = true ∧ ((run p ops).get 0).subs = [1, 3, 4] ∧
+    wokeIds ((step p (run p ops) (.set 0 7)).1.log.drop (run p ops).log.length) = [4, 3] ∧
+    directOnly (run p ops) 0 3 = true ∧ directOnly (run p ops) 0 4 = false := by decide +kernel
 
 end Leptos.Reactive
